@@ -75,6 +75,7 @@ def run(ctx):
     ctx.ob("P2.DELETE/COMPACT", "update_cell_value_shrink", "frag_bytes" in su, "accounts the freed bytes in frag_bytes" if "frag_bytes" in su else
            "update_cell_value_shrink frees bytes without accounting them", u.loc())
     leaf_chain_splice(ctx)
+    prefix_equal_needs_full_compare(ctx)
 
 
 def count_delta(f, delta):
@@ -141,3 +142,52 @@ def leaf_chain_splice(ctx):
            "old.next := new page and new.next := old successor on every success path" if ok_shape and ok_paths else
            ("split_leaf does not splice the new leaf into the leaf chain on every success path (%d store(s) of the old successor, %d store(s) of "
             "the new page%s): cursor scans lose or skip leaves" % (len(from_old), len(to_new), "; " + describe_path(f, esc[0]) if esc else "")), f.loc())
+
+
+def prefix_equal_needs_full_compare(ctx):
+    """P6 PREFIX-EQUAL-NEEDS-FULL-COMPARE: interior slots carry a zero-padded 4-byte prefix of the separator.  When the probe's
+    prefix equals the slot's, only a comparison of the full separator with the key can decide the side ("ab" sorts left of "ab\\0"
+    although their prefixes are equal).  In both find_child implementations, every path from the Ordering::Equal arm of the prefix
+    comparison back to the loop header passes a byte-slice ordering comparison."""
+    m = ctx.m
+    n = 0
+    for fid in ("btree::interior::InteriorNode::<'a>::find_child", "btree::interior::InteriorNodeMut::<'a>::find_child"):
+        f = m.fn(fid)
+        loops = f.loops()
+        items = list(loops.items()) if isinstance(loops, dict) else list(loops)
+        cmps = [c for c in f.calls if ("PartialOrd" in c.name and c.name.rsplit("::", 1)[-1] in ("lt", "le", "gt", "ge", "partial_cmp"))
+                or (c.name.rsplit("::", 1)[-1] == "cmp" and "[u8]" in c.full)]
+        prefix_cmp = [c for c in f.calls if c.name.rsplit("::", 1)[-1] == "cmp" and "u32" in c.full]
+        if not prefix_cmp or not items:
+            raise CheckError("%s: prefix comparison / loop not found" % fid)
+        pc = prefix_cmp[0]
+        h, body = min([(h, b) for h, b in items if pc.bb in b], key=lambda x: len(x[1]))
+        # the switch on the Ordering result: Equal has discriminant 0
+        sw = pc.target
+        t = f.blocks[sw]["t"]
+        while t[0] != "switch" and len(f.succ(sw, unwind=False)) == 1:
+            sw = f.succ(sw, unwind=False)[0]
+            t = f.blocks[sw]["t"]
+        if t[0] != "switch":
+            raise CheckError("%s: Ordering switch not found" % fid)
+        eq = [x[1] for x in t[3] if x[0] == 0]
+        if not eq:
+            eq = [t[4]]
+        n += 1
+        blocked = {c.bb for c in cmps}
+        seen, st, skip = set(), [eq[0]], False
+        while st:
+            b = st.pop()
+            if b in seen or b in blocked:
+                continue
+            seen.add(b)
+            for s in f.succ(b, unwind=False):
+                if s == h:
+                    skip = True
+                elif s in body:
+                    st.append(s)
+        short = fid.split("::")[2].split("<")[0] + "::find_child"
+        ctx.ob("P6.PREFIX-EQUAL-NEEDS-FULL-COMPARE", short, not skip and bool(cmps), "equal prefixes are always resolved by a full separator comparison" if not skip and cmps else
+               "%s can choose a side on equal 4-byte prefixes without comparing the full separator: a key that differs from the separator only in "
+               "trailing zero bytes (or length) is routed to the wrong child" % short, pc.loc())
+    ctx.floor("P6.find_child_impls", n, 2)
